@@ -94,8 +94,13 @@ package tools
 //@   safety C20
 //@   requires s != nil && wfSpec(s)
 //@   ensures[C20] count: err == nil && a != nil && a.NodeCount == len(s.Nodes)
+//@   ensures[C20] termsound: forall i int :: 0 <= i && i < len(a.TerminalNodes) ==> (a.TerminalNodes[i] in s.Nodes) && (s.Nodes[a.TerminalNodes[i]].Branches == nil || len(s.Nodes[a.TerminalNodes[i]].Branches.Branches) == 0)
 //@   loop 0 invariant a.NodeCount == len(s.Nodes)
+//@   loop 0 invariant[C20] termsound: forall i int :: 0 <= i && i < len(terminal) ==> (terminal[i] in s.Nodes) && (s.Nodes[terminal[i]].Branches == nil || len(s.Nodes[terminal[i]].Branches.Branches) == 0)
+//@   loop 0 invariant[C20] missingsound: forall k string :: (k in missingTargets) ==> !(k in s.Nodes)
 //@   loop 1 invariant a.NodeCount == len(s.Nodes)
+//@   loop 1 invariant[C20] termsound1: forall i int :: 0 <= i && i < len(terminal) ==> (terminal[i] in s.Nodes) && (s.Nodes[terminal[i]].Branches == nil || len(s.Nodes[terminal[i]].Branches.Branches) == 0)
+//@   loop 1 invariant[C20] missingsound1: forall k string :: (k in missingTargets) ==> !(k in s.Nodes)
 //@   loop 1 ghostfn gg(rangeindex + 1) = a.Guards
 //@   loop 1 ghostfn gb(rangeindex + 1) = a.Branches
 //@   loop 1 invariant[C20] branchstep: rangeindex >= 0 ==> a.Branches == gb(rangeindex) + 1
